@@ -479,6 +479,7 @@ def run(tier, seed):
     alphabet = item_alphabet(tier)
     red = [(e, x) for e in ['a', 'd', 'd2', 'e', 'f', 'g', 'n1', 'n2', 'i:2',
                             'D:0.5', 'F:2/3'] for x in (-1, 1, 2)]
+    red += [('b', 0), ('e', 0), ('i:2', 0), ('n1', 0)]   # given zero exponents
     if tier == 'thorough':
         maxlen = 3
         total.merge(pmap(part_terms, [[it] for it in alphabet],
@@ -511,6 +512,14 @@ def run(tier, seed):
     shorts = [[list(x)] for x in sub] + \
         [[list(x), list(y)] for x in sub for y in sub]
     shorts.append([])
+    # a few longer terms, so that products / quotients with operands of 3 and
+    # 4 items are covered as well
+    longer = [[('a', 1), ('b', 2), ('c', -1)], [('d', 1), ('e', -1), ('i:2', 1)],
+              [('f', 1), ('g', -1), ('a', -2)], [('n1', 1), ('n2', -1), ('b', 1)],
+              [('D:0.5', 1), ('d2', 1), ('c', 2)],
+              [('a', 1), ('b', 1), ('c', 1), ('e', 1)],
+              [('F:2/3', 1), ('g', 2), ('d', -1), ('n2', 1)]]
+    shorts += [[list(x) for x in t] for t in longer]
     total.merge(pmap(part_pairs, [shorts[i::32] for i in range(32)],
                      (shorts,)))
     ushorts = [[list(x)] for x in ualpha] + \
